@@ -1,6 +1,6 @@
 // C19 conformance driver: iora::network::dns::DnsMessage (decoder, query builder) and DnsCache (TTL honouring).
 //
-//   drv_dns name  <cases> <out.ndjson> <shards>    one layout of DnsName.tla per line:  <cut> <cell> <cell> ...
+//   drv_dns name  <cases> <out.ndjson> <shards>    one layout of DnsName.tla per line:  <cut> <start> <cell> <cell> ...
 //   drv_dns rec   <cases> <out.ndjson> <shards>    one response plan of DnsRecords.tla per line (JSON, see renderPlan)
 //   drv_dns query <cases> <out.ndjson> <shards>    one query plan per line (JSON)
 //   drv_dns cache <cases> <out.ndjson> <shards>    one operation sequence of DnsCache.tla per line
@@ -240,12 +240,19 @@ static GuardBuf &guard()
 
 // ------------------------------------------------------------------------------------------------ name mode
 static const int kLabLen[4] = {0, 1, 2, 63};
+static const char kLetters[] = "abcdefghijklmnopqrstuvwxyz0123456789ABCDEFGHIJKLMNOPQRSTUVWXYZ"; // DnsNameOps.Lid
+
+static int cellSize(int c) { return c >= 10 ? 2 : (c >= 1 && c <= 3) ? kLabLen[c] + 1 : 1; }
+static std::vector<int> cellOffsets(const std::vector<int> &cells)
+{
+  std::vector<int> off(cells.size() + 1, 0);
+  for (size_t i = 0; i < cells.size(); ++i) off[i + 1] = off[i] + cellSize(cells[i]);
+  return off;
+}
 
 static std::vector<uint8_t> renderCells(const std::vector<int> &cells, int cut)
 {
-  std::vector<int> off(cells.size() + 1, 0);
-  auto sz = [](int c) { return c >= 10 ? 2 : (c >= 1 && c <= 3) ? kLabLen[c] + 1 : 1; };
-  for (size_t i = 0; i < cells.size(); ++i) off[i + 1] = off[i] + sz(cells[i]);
+  std::vector<int> off = cellOffsets(cells);
   int size = off[cells.size()] - cut;
   std::vector<uint8_t> b;
   for (size_t i = 0; i < cells.size(); ++i)
@@ -256,13 +263,14 @@ static std::vector<uint8_t> renderCells(const std::vector<int> &cells, int cut)
     else if (c >= 1 && c <= 3)
     {
       b.push_back((uint8_t)kLabLen[c]);
-      for (int k = 0; k < kLabLen[c]; ++k) b.push_back((uint8_t)('a' + i));
+      for (int k = 0; k < kLabLen[c]; ++k) b.push_back((uint8_t)kLetters[i % 62]);
     }
     else if (c == 4)
-      b.push_back((uint8_t)(0x40 + i + 1));
+      b.push_back((uint8_t)(0x40 + (i + 1) % 64));
     else
     {
-      int t = c == 20 ? size : c == 21 ? 16383 : off[c - 10 - 1];
+      // 10 + k / 1000 + k: first byte of cell k; 20: offset = size; 21: 16383
+      int t = c == 20 ? size : c == 21 ? 16383 : c >= 1000 ? off[c - 1000 - 1] : off[c - 10 - 1];
       b.push_back((uint8_t)(0xC0 | ((t >> 8) & 0x3F)));
       b.push_back((uint8_t)(t & 0xFF));
     }
@@ -271,7 +279,7 @@ static std::vector<uint8_t> renderCells(const std::vector<int> &cells, int cut)
   return b;
 }
 
-// decoded presentation name -> [[cell, len], ...] (cell 0: a label this driver did not write)
+// decoded presentation name -> [[letter id, len], ...] (letter id 0: a label this driver did not write)
 static std::string nameAsCells(const std::string &name)
 {
   std::string o = "[";
@@ -280,42 +288,46 @@ static std::string nameAsCells(const std::string &name)
     bool first = true;
     for (auto &lab : vf::split(name, '.'))
     {
-      int cell = 0;
+      int id = 0;
       if (!lab.empty())
       {
         bool same = true;
         for (char ch : lab) same = same && ch == lab[0];
-        if (same && lab[0] >= 'a' && lab[0] <= 'i') cell = lab[0] - 'a' + 1;
+        const char *pos = strchr(kLetters, lab[0]);
+        if (same && pos && lab[0] != 0) id = (int)(pos - kLetters) + 1;
       }
       if (!first) o += ",";
       first = false;
-      o += "[" + std::to_string(cell) + "," + std::to_string(lab.size()) + "]";
+      o += "[" + std::to_string(id) + "," + std::to_string(lab.size()) + "]";
     }
   }
   return o + "]";
 }
 
-static void parseNameCase(const std::string &line, int &cut, std::vector<int> &cells)
+// case line: <cut> <start cell> <cell> <cell> ...
+static void parseNameCase(const std::string &line, int &cut, int &start, std::vector<int> &cells)
 {
   auto w = vf::words(line);
   cut = atoi(w[0].c_str());
+  start = atoi(w[1].c_str());
   cells.clear();
-  for (size_t i = 1; i < w.size(); ++i) cells.push_back(atoi(w[i].c_str()));
+  for (size_t i = 2; i < w.size(); ++i) cells.push_back(atoi(w[i].c_str()));
 }
 
-static std::string nameEvHead(int cut, const std::vector<int> &cells)
+static std::string nameEvHead(int cut, int start, const std::vector<int> &cells)
 {
   vf::Ev e("Name");
-  e.i("cut", cut).ints("cells", cells.begin(), cells.end());
+  e.i("cut", cut).i("start", start).ints("cells", cells.begin(), cells.end());
   return e.s;
 }
 
 static std::string nameCase(long, const std::string &line, Shared *)
 {
-  int cut;
+  int cut, start;
   std::vector<int> cells;
-  parseNameCase(line, cut, cells);
+  parseNameCase(line, cut, start, cells);
   std::vector<uint8_t> bytes = renderCells(cells, cut);
+  const size_t startOff = (size_t)cellOffsets(cells)[start - 1];
   std::string name, res;
   long end = 0;
   for (int pass = 0; pass < 2; ++pass)
@@ -328,7 +340,7 @@ static std::string nameCase(long, const std::string &line, Shared *)
     long e2 = 0;
     try
     {
-      e2 = (long)DnsMessage::decodeName(buf, 0, bytes.size(), n2);
+      e2 = (long)DnsMessage::decodeName(buf, startOff, bytes.size(), n2);
       r2 = "ok";
     }
     catch (const std::exception &)
@@ -345,7 +357,7 @@ static std::string nameCase(long, const std::string &line, Shared *)
     else if (r2 != res || (res == "ok" && (n2 != name || e2 != end)))
       res = "unstable"; // the same bytes decoded differently: the decoder looked at something outside the message
   }
-  std::string s = nameEvHead(cut, cells);
+  std::string s = nameEvHead(cut, start, cells);
   s += ",\"res\":\"" + res + "\",\"name\":" + (res == "ok" ? nameAsCells(name) : std::string("[]")) +
        ",\"end\":" + std::to_string(res == "ok" ? end : 0) + "}\n";
   return s;
@@ -353,10 +365,10 @@ static std::string nameCase(long, const std::string &line, Shared *)
 
 static std::string nameFail(long, const std::string &line, const char *what, long)
 {
-  int cut;
+  int cut, start;
   std::vector<int> cells;
-  parseNameCase(line, cut, cells);
-  return nameEvHead(cut, cells) + ",\"res\":\"" + what + "\",\"name\":[],\"end\":0}\n";
+  parseNameCase(line, cut, start, cells);
+  return nameEvHead(cut, start, cells) + ",\"res\":\"" + what + "\",\"name\":[],\"end\":0}\n";
 }
 
 // ------------------------------------------------------------------------------------------------ mini JSON
@@ -475,6 +487,7 @@ static std::string labelText(int id)
   case 12: return std::string(63, 'z');
   case 13: return std::string(61, 'w');
   }
+  if (id >= 100) return "d" + std::to_string(id - 100); // the labels of the deep subdomain chains
   return "bad" + std::to_string(id);
 }
 static int labelId(std::string lab)
@@ -482,6 +495,12 @@ static int labelId(std::string lab)
   for (auto &c : lab) c = (char)tolower((unsigned char)c);
   for (int i = 1; i <= 13; ++i)
     if (labelText(i) == lab) return i;
+  if (lab.size() >= 2 && lab.size() <= 4 && lab[0] == 'd')
+  {
+    bool digits = true;
+    for (size_t i = 1; i < lab.size(); ++i) digits = digits && isdigit((unsigned char)lab[i]);
+    if (digits && (lab[1] != '0' || lab.size() == 2)) return 100 + atoi(lab.c_str() + 1);
+  }
   return 0;
 }
 static std::string namePresentation(const std::vector<int> &n)
